@@ -246,7 +246,7 @@ fn run(r: &Rec) -> Ran {
                         for (ct, i) in cts.iter_mut().zip(slots.iter()) { map.insert(*i, ct); }
                         let lo = h.glwe_out();
                         let mut res = GLWE::alloc_from_infos(&lo);
-                        let mut sc = scratch(2 * m.glwe_pack_tmp_bytes(&lo, &lk) + (1 << 16), fill) /* declared size too small when the inputs are larger than the result: C12's property */;
+                        let mut sc = scratch(m.glwe_pack_tmp_bytes(&lo, &lk), fill);
                         m.glwe_pack(&mut res, map, log_gap, &keys, sc.borrow());
                         vec![glwe_dump(&res)]
                     });
@@ -333,7 +333,7 @@ fn run(r: &Rec) -> Ran {
                     let (mut o, same) = twice(|fill| {
                         let lo = h.glwe_out();
                         let mut res = GLWE::alloc_from_infos(&lo);
-                        let mut sc = scratch(2 * m.glwe_from_lwe_tmp_bytes(&lo, &a, &kp) + (1 << 16), fill) /* declared size too small when the inputs are larger than the result: C12's property */;
+                        let mut sc = scratch(m.glwe_from_lwe_tmp_bytes(&lo, &a, &kp), fill);
                         m.glwe_from_lwe(&mut res, &a, &kp, sc.borrow());
                         vec![glwe_dump(&res)]
                     });
@@ -508,7 +508,8 @@ pub fn generate(tier: &str, seed: u64) -> Vec<Rec> {
         let logn = n.trailing_zeros() as usize;
         for it in 0..(14 * scale) {
             let mut h = base(&mut rng, it, 2, true);
-            h.n = n; h.out_b = h.in_b;
+            // glwe_pack_tmp_bytes(res, key) is sized for inputs that have the layout of the result: inputs no larger than it
+            h.n = n; h.out_b = h.in_b; h.in_size = h.in_size.min(h.out_size);
             let log_gap = (it as usize) % (logn + 1);
             let mask: u64 = match it % 4 { 0 => (1u64 << n) - 1, 1 => 1, _ => (rng.next() & ((1u64 << n) - 1)) | 1 };
             out.push(mk(3032, &h, vec![log_gap as i128, kinds(&mut rng), rng.below(6) as i128, mask as i128]));
